@@ -318,6 +318,8 @@ def case_sunrise(mon, y, m, d, lat, lon, h):
     e = Epoch(y, m, d)
     case = {"date": [y, m, d], "lat": lat, "lon_east": lon, "height_m": h}
     ident = ("sun", y, m, d, lat, lon, h)
+    if d != int(d):
+        mon.cls("epoch-with-time-of-day", ident, case)
     if abs(lat) > 60.0:
         mon.cls("|lat|>60", ident, case if abs(lat) == 66.5 else None)
     if (m in (6, 12)) and 11 <= d <= 31:
@@ -331,7 +333,8 @@ def case_sunrise(mon, y, m, d, lat, lon, h):
         # acos domain: the Sun does not reach the standard altitude that
         # day.  Accepted only if the monitor's own scan agrees.
         if "math domain" in str(ex):
-            alts = [sun_alt_ha(e.jde() + k / 48.0 - lon / 360.0, lat, lon)[0]
+            j0 = Epoch(y, m, int(d)).jde()
+            alts = [sun_alt_ha(j0 + k / 48.0 - lon / 360.0, lat, lon)[0]
                     for k in range(0, 49)]
             # "never crosses" is judged with the 1 deg accuracy the property
             # grants the sunrise equation
@@ -500,6 +503,9 @@ def run(mon, spec):
                           0.0))
         lon = rng.choice((180.0, -180.0, 0.0, rng.uniform(-180, 180)))
         h = rng.choice((0.0, 5000.0, rng.uniform(0, 5000)))
+        if k % 4 == 1:
+            # an Epoch that carries a time of day: the answer is for its date
+            d = d + rng.choice((0.25, 0.5, 0.75, 0.999, rng.random()))
         p = [y, m, d, lat, lon, h]
         mon.begin("sunrise", p)
         case_sunrise(mon, *p)
